@@ -52,6 +52,24 @@ pub fn run(id: &str, ctx: &Ctx) -> Report {
 pub fn probe(args: &[String]) {
     match args.first().map(|s| s.as_str()) {
         Some("deep-nest") => c16::probe_deep(args),
+        Some("c02-debug") => {
+            let scratch = std::path::PathBuf::from("/dev/shm/vh-debug");
+            let _ = std::fs::create_dir_all(&scratch);
+            let seed: u64 = args[1].parse().unwrap();
+            let mut sr = crate::util::Rng::new(seed);
+            let sc = c02::gen_scenario(&mut sr, seed);
+            let mut o = crate::sim::run_sim(sc.cfg, &scratch, 120);
+            // internal randomness: repeat until the run fails to complete (at most 40 attempts)
+            for _ in 0..40 {
+                if o.extractor.is_none() { break; }
+                let mut sr = crate::util::Rng::new(seed);
+                let sc = c02::gen_scenario(&mut sr, seed);
+                o = crate::sim::run_sim(sc.cfg, &scratch, 120);
+            }
+            println!("extractor: {:?}", o.extractor);
+            let (from, to): (u64, u64) = (args[2].parse().unwrap(), args[3].parse().unwrap());
+            for e in o.events.iter().filter(|e| e.ms >= from && e.ms <= to).filter(|e| !matches!(e.kind, crate::sim::EvKind::RecvWait { .. })) { println!("{}", crate::sim::fmt_ev(e).chars().take(260).collect::<String>()); }
+        }
         Some("c20-debug") => {
             let scratch = std::path::PathBuf::from("/dev/shm/vh-debug");
             let _ = std::fs::create_dir_all(&scratch);
